@@ -285,7 +285,7 @@ func propC03() *PropSpec {
 			}
 			js = append(js, jobsN("html", "VerifHTMLAttrRaw", pick(rng(0, 3), rng(0, 4)), "<tag attr=QVQ>: V = n bytes over the quoting alphabet, 3 quoting styles x 8 attributes x 2 tags x KeepQuotes/KeepDefaultAttrVals")...)
 			js = append(js, jobsN("html", "VerifHTMLAttrUnits", pick(rng(1, 2), rng(1, 2)), "V = n units out of 20 character references / quotes / separators")...)
-			js = append(js, jobsN("html", "VerifHTMLAttrURL", pick(rng(4, 6), rng(4, 7)), "URL attributes: scheme handling")...)
+			js = append(js, jobsN("html", "VerifHTMLAttrURL", pick(rng(4, 5), rng(4, 7)), "URL attributes: scheme handling")...)
 			js = append(js, jobsN("html", "VerifHTMLText", pick(rng(1, 2), rng(1, 2)), "T1<X>T2</X>T3 for 13 element kinds, KeepWhitespace/KeepEndTags symbolic: rendered word sequence")...)
 			js = append(js, jobsN("html", "VerifHTMLPre", pick(rng(0, 3), rng(0, 5)), "pre/textarea content untouched")...)
 			js = append(js, Job{Pkg: "html", Fn: "VerifHTMLTwin", N: 0, ExpectFail: true, Desc: "vacuity twin"})
